@@ -1,1 +1,185 @@
-fn main(){ println!("hi"); }
+//! E3 — loom exploration of the REAL `src/sender/toiallocator.rs` (compiled as is through #[path];
+//! its `use std::sync::{Arc, Mutex}` resolves to loom's types because this crate enables the
+//! feature `verif-loom` that the hook in that file tests).
+//!
+//! Output: one JSON line on stdout: {"body": ..., "schedules": n, "violations": [...]}
+#![allow(dead_code)]
+
+mod common {
+    pub mod lct {
+        pub const TOI_FDT: u128 = flute::verif::TOI_FDT;
+    }
+}
+mod sender {
+    pub use flute::sender::TOIMaxLength;
+    #[path = "/repo/src/sender/toiallocator.rs"]
+    pub mod toiallocator;
+}
+
+use sender::toiallocator::{Toi, ToiAllocator};
+use sender::TOIMaxLength;
+use std::sync::atomic::{AtomicU64, Ordering};
+use std::sync::Mutex as StdMutex;
+
+static SCHEDULES: AtomicU64 = AtomicU64::new(0);
+static VIOLATIONS: StdMutex<Vec<String>> = StdMutex::new(Vec::new());
+static OUTCOMES: StdMutex<std::collections::BTreeSet<String>> = StdMutex::new(std::collections::BTreeSet::new());
+
+fn violation(s: String) {
+    let mut v = VIOLATIONS.lock().unwrap();
+    if v.len() < 5 && !v.contains(&s) {
+        v.push(s);
+    }
+}
+
+fn check_values(label: &str, live: &[u128], bits: u32) {
+    let mut seen = std::collections::BTreeSet::new();
+    for v in live {
+        if *v == 0 {
+            violation(format!("{}: TOI 0 handed out", label));
+        }
+        if bits < 128 && *v >= (1u128 << bits) {
+            violation(format!("{}: TOI {} does not fit {} bits", label, v, bits));
+        }
+        if !seen.insert(*v) {
+            violation(format!("{}: TOI {} held by two live handles", label, v));
+        }
+    }
+}
+
+/// body (a): T1 allocates twice, T2 drops a pre-allocated handle, T3 allocates once
+fn body_a() {
+    loom::model(|| {
+        SCHEDULES.fetch_add(1, Ordering::Relaxed);
+        let alloc = ToiAllocator::new(TOIMaxLength::ToiMax16, Some(0xFFFE));
+        let h0: Box<Toi> = ToiAllocator::allocate(&alloc); // 0xFFFE
+        let v0 = h0.get();
+        let a1 = alloc.clone();
+        let a3 = alloc.clone();
+        let t1 = loom::thread::spawn(move || {
+            let x = ToiAllocator::allocate(&a1);
+            let y = ToiAllocator::allocate(&a1);
+            (x, y)
+        });
+        let t2 = loom::thread::spawn(move || {
+            drop(h0);
+        });
+        let t3 = loom::thread::spawn(move || ToiAllocator::allocate(&a3));
+        let (x, y) = t1.join().unwrap();
+        t2.join().unwrap();
+        let z = t3.join().unwrap();
+        let live = vec![x.get(), y.get(), z.get()];
+        check_values("a", &live, 16);
+        OUTCOMES.lock().unwrap().insert(format!("a:{:?}", live));
+        // the released value must be allocatable again, the live ones must not come back:
+        // walk once around the 16-bit space is too long under loom; allocate a few and compare
+        let mut extra = Vec::new();
+        for _ in 0..4 {
+            let h = ToiAllocator::allocate(&alloc);
+            if live.contains(&h.get()) {
+                violation(format!("a: live TOI {} handed out again (v0 = {})", h.get(), v0));
+            }
+            extra.push(h);
+        }
+        drop(extra);
+        drop((x, y, z));
+    });
+}
+
+/// body (b): allocation near the wrap with TOI 1 reserved, while another thread drops the handle of 1
+fn body_b() {
+    loom::model(|| {
+        SCHEDULES.fetch_add(1, Ordering::Relaxed);
+        let alloc = ToiAllocator::new(TOIMaxLength::ToiMax16, Some(1));
+        let h1 = ToiAllocator::allocate(&alloc); // 1, next = 2
+        assert_eq!(h1.get(), 1);
+        // move the cursor to the top of the space: allocate/drop is O(1), but 65533 steps are too many
+        // for loom: build a second allocator positioned at 0xFFFF and reserve 1 in it instead
+        drop(h1);
+        let alloc = ToiAllocator::new(TOIMaxLength::ToiMax16, Some(0xFFFF));
+        let top = ToiAllocator::allocate(&alloc); // 0xFFFF, cursor wraps to 1
+        let one = ToiAllocator::allocate(&alloc); // 1, cursor = 2
+        assert_eq!((top.get(), one.get()), (0xFFFF, 1));
+        drop(top);
+        let a2 = alloc.clone();
+        let t1 = loom::thread::spawn(move || {
+            let x = ToiAllocator::allocate(&a2);
+            let y = ToiAllocator::allocate(&a2);
+            (x, y)
+        });
+        let t2 = loom::thread::spawn(move || drop(one));
+        let (x, y) = t1.join().unwrap();
+        t2.join().unwrap();
+        let live = vec![x.get(), y.get()];
+        check_values("b", &live, 16);
+        OUTCOMES.lock().unwrap().insert(format!("b:{:?}", live));
+        drop((x, y));
+    });
+}
+
+/// body (c): two threads each allocate and drop in a loop of 2 (release/allocate races on the set)
+fn body_c() {
+    loom::model(|| {
+        SCHEDULES.fetch_add(1, Ordering::Relaxed);
+        let alloc = ToiAllocator::new(TOIMaxLength::ToiMax32, Some(7));
+        let mut ts = Vec::new();
+        for _ in 0..2 {
+            let a = alloc.clone();
+            ts.push(loom::thread::spawn(move || {
+                let h = ToiAllocator::allocate(&a);
+                let v1 = h.get();
+                drop(h);
+                let h2 = ToiAllocator::allocate(&a);
+                (v1, h2)
+            }));
+        }
+        let mut live = Vec::new();
+        let mut hs = Vec::new();
+        for t in ts {
+            let (v1, h2) = t.join().unwrap();
+            if v1 == 0 {
+                violation("c: TOI 0".into());
+            }
+            live.push(h2.get());
+            hs.push(h2);
+        }
+        check_values("c", &live, 32);
+        OUTCOMES.lock().unwrap().insert(format!("c:{:?}", live));
+    });
+}
+
+fn main() {
+    // compile-time: the public handle and the sender can move and be shared across threads
+    fn assert_send<T: Send>() {}
+    fn assert_sync<T: Sync>() {}
+    assert_send::<flute::sender::Toi>();
+    assert_sync::<flute::sender::Toi>();
+    assert_send::<flute::sender::Sender>();
+    assert_sync::<flute::sender::Sender>();
+    assert_send::<Box<flute::sender::ObjectDesc>>();
+
+    let which = std::env::args().nth(1).unwrap_or_else(|| "all".into());
+    let mut report = Vec::new();
+    for (name, f) in [("a", body_a as fn()), ("b", body_b as fn()), ("c", body_c as fn())] {
+        if which != "all" && which != name {
+            continue;
+        }
+        SCHEDULES.store(0, Ordering::Relaxed);
+        let r = std::panic::catch_unwind(f);
+        if let Err(e) = r {
+            let msg = e.downcast_ref::<String>().cloned().or_else(|| e.downcast_ref::<&str>().map(|s| s.to_string())).unwrap_or_else(|| "panic".into());
+            violation(format!("{}: loom reported: {}", name, msg));
+        }
+        report.push(format!("{{\"body\": \"{}\", \"schedules\": {}}}", name, SCHEDULES.load(Ordering::Relaxed)));
+    }
+    let v = VIOLATIONS.lock().unwrap();
+    let o = OUTCOMES.lock().unwrap();
+    println!(
+        "{{\"bodies\": [{}], \"distinct_outcomes\": {}, \"outcomes\": {:?}, \"max_preemptions\": \"{}\", \"violations\": {:?}}}",
+        report.join(", "),
+        o.len(),
+        o.iter().take(12).collect::<Vec<_>>(),
+        std::env::var("LOOM_MAX_PREEMPTIONS").unwrap_or_else(|_| "unbounded".into()),
+        *v
+    );
+}
